@@ -119,11 +119,21 @@ pub struct Upload(pub usize);
 impl Upload {
     /// Get the upload value.
     pub fn value(&self, ctx: &Context<'_>) -> std::io::Result<UploadValue> {
-        ctx.query_env
+        let value = ctx
+            .query_env
             .uploads
             .get(self.0)
             .ok_or_else(|| std::io::Error::other("upload does not exist"))?
-            .try_clone()
+            .try_clone()?;
+
+        // A cloned `File` shares its offset with all other handles to the same
+        // file (one file can be mapped to several variables, and this function
+        // can be called several times), so start every handle at the beginning
+        // of the file instead of where the previous reader stopped.
+        #[cfg(feature = "tempfile")]
+        std::io::Seek::rewind(&mut &value.content)?;
+
+        Ok(value)
     }
 }
 
